@@ -15,8 +15,12 @@ class SortWorkload:
 
 
 def build(rng, casedir, index, nrec=None, untagged=True, force_all_known=False, n_chrom=None,
-          few_anchors=False, tags="safe", mode=None, layout=None, text_variants=True):
+          few_anchors=False, tags="safe", mode=None, layout=None, text_variants=True, huge=None):
     w = SortWorkload()
+    # "any size": now and then a file of 10-20 MiB (a few dozen records with half-megabyte CIGAR-like fields)
+    w.huge = (rng.random() < 0.012) if huge is None else huge
+    if w.huge:
+        nrec = rng.randint(24, 40)
     g = chain.gen_chain_rgfa(rng, n_chrom=n_chrom, id_style=rng.choice(["s", "name"]),
                              scaffolds=rng.choice([2, 3, rng.randint(3, 12)]))
     w.g = g
@@ -73,6 +77,9 @@ def build(rng, casedir, index, nrec=None, untagged=True, force_all_known=False, 
         offs = "any" if not few_anchors else rng.choice(["any", "full", "full"])
         recs.append(ggaf.make_record(g, rng, wk, f"r{index}_{i}", offsets=offs, tags=tags))
     w.walks = walks
+    if w.huge:
+        for r in recs:
+            r.line += "\tzl:Z:" + "x" * rng.randint(300_000, 600_000)
     w.lines, w.text_kind = ggaf.text_variant([r.line for r in recs], rng, p=0.15 if text_variants else 0.0)
     w.mode = mode or rng.choice(["plain", "plain", "bgzf", "pysam"])
     w.layout = layout or rng.choice(["standard", "tiny", "line_start"])
